@@ -13,6 +13,7 @@ package gorilla
 //@ callreq ReadJSON [one-reader-at-a-time] : held(codec.muRead)
 //@ ensures [unlocked] !held(codec.muRead)
 //@ ensures [message]  err == nil ==> result != nil
+//@ ensures [each-message-is-its-own] {C17} err == nil ==> result != nil && !old(allocated(ref(result)))
 //@ ensures [no-frame-is-skipped] err == nil ==> wsread == old(wsread) + 1 && wsdecoded == old(wsdecoded) + 1
 //@ ensures [a-failed-read-delivers-nothing] err != nil ==> result == nil && wsdecoded == old(wsdecoded)
 
